@@ -5,6 +5,7 @@ package main
 import (
 	"fmt"
 	"go/constant"
+	"go/token"
 	"go/types"
 	"sort"
 	"strconv"
@@ -282,12 +283,14 @@ func (c *FnCtx) evIdent(x *eIdent, env *evalEnv) *Val {
 		// value named x whose defining block is the closest dominator of the header
 		var best ssa.Value
 		bestDepth := -2
-		consider := func(v ssa.Value) {
-			ins, ok := v.(ssa.Instruction)
-			if !ok {
+		consider := func(v ssa.Value, at *ssa.BasicBlock) {
+			b := at
+			if ins, ok := v.(ssa.Instruction); ok {
+				b = ins.Block()
+			} else if _, isC := v.(*ssa.Const); !isC {
 				return
 			}
-			b := ins.Block()
+			// (a constant is "defined" where the variable is assigned it: the block of the DebugRef)
 			if b == nil || b == c.curLoop.header || !b.Dominates(c.curLoop.header) {
 				return
 			}
@@ -302,10 +305,10 @@ func (c *FnCtx) evIdent(x *eIdent, env *evalEnv) *Val {
 		for _, b := range c.fn.Blocks {
 			for _, ins := range b.Instrs {
 				if phi, ok := ins.(*ssa.Phi); ok && phi.Comment == x.name {
-					consider(phi)
+					consider(phi, nil)
 				}
 				if d, ok := ins.(*ssa.DebugRef); ok && !d.IsAddr && d.Object() != nil && d.Object().Name() == x.name {
-					consider(d.X)
+					consider(d.X, d.Block())
 				}
 			}
 		}
@@ -313,10 +316,31 @@ func (c *FnCtx) evIdent(x *eIdent, env *evalEnv) *Val {
 			if r, ok := c.regs[best]; ok {
 				return r
 			}
+			if _, isC := best.(*ssa.Const); isC {
+				return c.val(c.state(env), best)
+			}
 		}
 	}
 	// source-level local variable names (DebugRef): only unambiguous ones
 	if c.fn != nil && env.vars != nil {
+		// a local that only ever holds one constant (never reassigned): its value
+		if vs := c.names[x.name]; len(vs) >= 1 {
+			var k0 *ssa.Const
+			same := true
+			for _, v := range vs {
+				k, isC := v.(*ssa.Const)
+				if !isC || (k0 != nil && !(types.Identical(k.Type(), k0.Type()) && ((k.Value == nil && k0.Value == nil) || (k.Value != nil && k0.Value != nil && constant.Compare(k.Value, token.EQL, k0.Value))))) {
+					same = false
+					break
+				}
+				if k0 == nil {
+					k0 = k
+				}
+			}
+			if same && k0 != nil {
+				return c.val(c.state(env), k0)
+			}
+		}
 		if vs := c.names[x.name]; len(vs) == 1 {
 			if r, ok := c.regs[vs[0]]; ok {
 				return r
@@ -364,6 +388,20 @@ func (c *FnCtx) evIdent(x *eIdent, env *evalEnv) *Val {
 				if sp := c.L.prog.Package(env.pkg); sp != nil {
 					if gv, ok := sp.Members[g.Name()].(*ssa.Global); ok {
 						return c.load(c.state(env), c.mk(gv.Type(), c.globalRef(gv)))
+					}
+				}
+			}
+		}
+	}
+	// a local that the function still declares but that has no SSA value here (dead after an
+	// edit: assigned, never read): the contract talks about an untracked variable -- any value
+	if c.fn != nil && env.vars != nil {
+		for _, b := range c.fn.Blocks {
+			for _, ins := range b.Instrs {
+				if d, ok := ins.(*ssa.DebugRef); ok && d.Object() != nil && d.Object().Name() == x.name {
+					if _, isVar := d.Object().(*types.Var); isVar {
+						c.unsupported("note: local %s has no value at this point (dead variable?): treated as arbitrary", x.name)
+						return c.freshOf(c.state(env), d.Object().Type(), "dead."+x.name)
 					}
 				}
 			}
